@@ -585,6 +585,9 @@ def _r2(run, prog, inst, mods):
         run.subject('C08-R2')
         calls = [c for c in ast.walk(fn) if isinstance(c, ast.Call) and dotted(c.func) == 'parse_adas2x_rate'] if fn is not None else []
         kw = {k.arg: norm(k.value) for c in calls for k in c.keywords}
+        for c in calls:
+            if len(c.args) >= 2 and 'normalisation' not in kw:
+                kw['normalisation'] = norm(c.args[1])       # passed by position
         if calls and kw.get('normalisation') == wantn:
             run.ok('C08-R2', fname + ' normalisation', wantn, sample=False)
         else:
@@ -813,6 +816,10 @@ def _r3(run, m15):
                 tv = chain[0]
                 # the type key: constants chosen by tests on the ADAS type, or a lookup in a literal dict
                 tr = res(tv)
+                if isinstance(tr, ast.Call) and isinstance(tr.func, ast.Attribute) and tr.func.attr == 'get' and isinstance(tr.func.value, ast.Name) \
+                        and len(tr.args) == 1:
+                    # table.get(key) (with the None case raised afterwards) is the same lookup as table[key]
+                    tr = ast.Subscript(value=tr.func.value, slice=tr.args[0], ctx=ast.Load())
                 if isinstance(tr, ast.Subscript) and isinstance(tr.value, ast.Name):
                     lit = m15.assigns.get(tr.value.id)
                     if lit is None:
@@ -881,22 +888,73 @@ def _r3(run, m15):
 
 
 # ------------------------------------------------------------------------------------------ R4
+def _preorder(fn):
+    """nodes in execution (source nesting) order, independent of their line numbers"""
+    out = []
+
+    def go(n):
+        out.append(n)
+        for c in ast.iter_child_nodes(n):
+            go(c)
+    go(fn)
+    return out
+
+
+def _reaching_text(fn, at, e, depth=3):
+    """text of e with a plain name replaced by its last assignment before `at` in the same statement list (a name reused later in the
+    function is still unambiguous at this point)"""
+    if not isinstance(e, ast.Name) or depth <= 0:
+        return norm(e)
+    for blk in [n.body for n in ast.walk(fn) if hasattr(n, 'body') and isinstance(getattr(n, 'body'), list)]:
+        if any(st is at for st in blk):
+            prev = [st for st in blk[:[i for i, st in enumerate(blk) if st is at][0]]
+                    if isinstance(st, ast.Assign) and any(isinstance(t_, ast.Name) and t_.id == e.id for t_ in st.targets)]
+            if prev:
+                v = prev[-1].value
+                txt = norm(v)
+                for nm in [x for x in ast.walk(v) if isinstance(x, ast.Name)]:
+                    inner = _reaching_text(fn, prev[-1], nm, depth - 1)
+                    if inner != nm.id:
+                        txt = txt.replace(nm.id, '(' + inner + ')')
+                return txt
+    return norm(e)
+
+
 def _r4(run, mods):
     run.describe('C08-R4', 'reject paths exist and dominate use')
     m11 = mods['adf11']
     fn = m11.functions['parse_adf11']
     run.subject('C08-R4')
+    # decided on the expanded + propagated body: the header fields are whatever the comparison resolves to, the order is the order of
+    # execution (pre-order position), not the line number -- a helper's statements keep the line numbers of the helper
+    from ..inline import propagate as _propagate
+    try:
+        fn = _propagate(fn)
+    except Exception:
+        pass
+    pos = {}
+    for k_, n_ in enumerate(_preorder(fn)):
+        pos[id(n_)] = k_
     rs = [r for r in ast.walk(fn) if isinstance(r, ast.Raise)]
-    first_table = min([c.lineno for c in ast.walk(fn) if isinstance(c, ast.Call) and dotted(c.func) == 'np.fromstring'] or [10 ** 9])
+    first_table = min([pos[id(c)] for c in ast.walk(fn) if isinstance(c, ast.Call) and dotted(c.func) in ('np.fromstring', 'np.array', 'np.loadtxt', 'np.fromiter')
+                       and id(c) in pos] or [10 ** 9])
     ok = False
     for r in rs:
         t = _enclosing_if(fn, r)
-        if t is not None and norm(t.test) in ('element.atomic_number != z_nuclear or element.name != element_name',
-                                              'element.name != element_name or element.atomic_number != z_nuclear') \
-                and dotted(r.exc.func if isinstance(r.exc, ast.Call) else r.exc) == 'ValueError' and r.lineno < first_table:
+        if t is None or dotted(r.exc.func if isinstance(r.exc, ast.Call) else r.exc) != 'ValueError' or pos.get(id(r), 10 ** 9) > first_table:
+            continue
+        parts = t.test.values if isinstance(t.test, ast.BoolOp) and isinstance(t.test.op, ast.Or) else [t.test]
+        num = name = False
+        for p_ in parts:
+            if isinstance(p_, ast.Compare) and len(p_.ops) == 1 and isinstance(p_.ops[0], ast.NotEq):
+                sides = [norm(p_.left), norm(p_.comparators[0])]
+                other = [_reaching_text(fn, t, x_) for x_ in (p_.left, p_.comparators[0]) if not norm(x_).startswith('element.')]
+                if 'element.atomic_number' in sides and other and 'int(' in other[0] and '[0]' in other[0]:
+                    num = True
+                if 'element.name' in sides and other and '[5]' in other[0]:
+                    name = True
+        if num and name:
             ok = True
-    hdr = {norm(t): norm(v) for t, v, st in stores(fn) if isinstance(st, ast.Assign)}
-    ok = ok and hdr.get('z_nuclear') == 'int(tmp[0])' and 'tmp[5]' in hdr.get('element_name', '')
     if ok:
         run.ok('C08-R4', 'ADF11 element check', 'atomic number and name compared with the header before any table is read')
     else:
